@@ -65,12 +65,17 @@ def document_sets(r, n):
                     return o.getvalue().encode()
                 s[t] = (dump(rows_a), dump(rows_b))
             elif t == "plist":
-                s[t] = (_cli.serialise(t, a, "A"), _cli.serialise(t, b, "B"))
+                # (a plist can hold bytes: <data>)
+                pa = [a, b"abc\x00\xff", {"d": b"x\ny"}] if keep_null else a
+                pb = [b, b"abd\x00", {"d": b"x\nz", "e": b""}] if keep_null else b
+                s[t] = (_cli.serialise(t, pa, "A"), _cli.serialise(t, pb, "B"))
             elif not keep_null:
                 # no nulls here (null as plist is known finding F27 and would end the run before anything else is printed),
                 # but values no plist FILE could hold: integers beyond 64 bits, extreme floats, non-ASCII text
                 xa = [a, 2 ** 64, -(2 ** 63) - 1, 1e300, "caf\u00e9 \U0001F600"]
                 xb = [b, 2 ** 64 + 1, -(2 ** 63) - 1, 1e-300, "cafe \U0001F600"]
+                if t == "pickle":
+                    xa, xb = xa + [b"abc\x00\xff", {"d": b"x\ny"}], xb + [b"abd\x00", {"d": b"x\nz"}]      # bytes values
                 s[t] = (_cli.serialise(t, xa, "A"), _cli.serialise(t, xb, "B"))
             else:
                 s[t] = (_cli.serialise(t, a0, "A"), _cli.serialise(t, b0, "B"))
@@ -109,6 +114,21 @@ def run():
                                  "contents": (ds[typ][0].decode("latin-1"), (ds[typ][0] if equal else ds[typ][1]).decode("latin-1")),
                                  "meta": {"set": si, "input": typ, "format": fmt or "default", "mode": mode, "look": look,
                                           "condensed": cond == "condensed", "equal": equal, "options": " ".join(oargs)}})
+    # a very wide document (containers with more than 1000 direct children, one of them edited): size-dependent code
+    # paths in the formatters ("only for long sequences")
+    wide_a = {"list": list(range(1200)), "map": {"k%04d" % j: j for j in range(1200)}}
+    wide_b = {"list": list(range(600)) + ["changed"] + list(range(601, 1200)) + [1200], "map": dict(wide_a["map"], k0600="changed", extra=1)}
+    wa = mats.file(json.dumps(wide_a).encode(), ".json", "widea")
+    wb = mats.file(json.dumps(wide_b).encode(), ".json", "wideb")
+    for fmt in [None] + _cli.TYPES:
+        for (look, largs), (mode, margs) in itertools.product(LOOKS.items(), (("full", []), ("digest", ["-d"]))):
+            if fmt is None and look != "plain":
+                continue
+            argv = [wa, wb, "--no-status"] + margs + largs + (["--format", fmt] if fmt else [])
+            cfg = _cli.base_cfg(fromExt="json", toExt="json", fromValid=["json"], toValid=["json"], sameData=False, decided=False)
+            jobs.append({"argv": argv, "from": wa, "to": wb, "cfg": cfg, "contents": ("<1200-item list and 1200-key map>", "<one item changed>"),
+                         "meta": {"set": -1, "input": "json", "format": fmt or "default", "mode": mode, "look": look,
+                                  "condensed": False, "equal": False, "options": "wide"}})
     records = _cli.execute(jobs)
     errs, st = _cli.validate(records)
     chk.add_trace_stats(st, "CliTrace", len(records))
